@@ -149,18 +149,21 @@ Theorem C20_linear_trend_lsq :
   exists v y, num_of inject_Z qv = Some v /\ get p r = Some (TF y) /\ y == a * v + b.
 Proof. exact linear_trend_lsq. Qed.
 
-(* dict-valued attributes: prepared for proposed_fixes/C20-dict-attribute-paths (switched by
-   Gen.dict_paths_followed).  Once the path followers index into dicts a dict is an attribute dict for
-   child / put / wf, hence for every theorem above (their hypothesis `wf template = true` then admits dicts);
-   until then wf rejects trees with dicts (finding float-inside-dict-raises) *)
-Theorem C20_dict_followed :
+(* dict-valued attributes (switched by Gen.dict_paths_followed, regenerated from the source; /repo e3bcee5):
+   the path followers index into dicts, so a dict is an attribute dict for child / put / wf and therefore
+   for every theorem above (their hypothesis `wf template = true` admits dicts).  C20_dict_code stops
+   compiling if the repair regresses. *)
+Theorem C20_dict_code : dictok = true.
+Proof. exact dict_code. Qed.
+
+Theorem C20_dict_is_attribute_dict :
   forall (V : Type) (fs : list (string * tree V)) (s : string) (x : tree V),
-  dictok = true ->
   child (KS s) (TD fs) = child (KS s) (TO fs) /\
   put (KS s) x (TD fs) = Some (TD (assoc_set s x fs)) /\
   wf (TD fs) = wf (TO fs).
-Proof. exact @dict_followed. Qed.
+Proof. exact @dict_is_attribute_dict. Qed.
 
+(* history: before e3bcee5 (getattr only) a float below a dict made every off-node query raise *)
 Theorem C20_dict_not_followed_legacy :
   forall (V : Type) (fs : list (string * tree V)) (s : string),
   dictok = false -> child (KS s) (TD fs) = None /\ wf (TD fs) = false.
@@ -171,6 +174,7 @@ Print Assumptions C20_per_leaf.
 Print Assumptions C20_variable_code.
 Print Assumptions C20_defined.
 Print Assumptions C20_leaf_code.
+Print Assumptions C20_dict_code.
 Print Assumptions C20_order_free.
 Print Assumptions C20_linear_exact.
 Print Assumptions C20_linear_trend_lsq.
